@@ -567,7 +567,12 @@ def r11_classifiers(ctx):
         if not calls:
             continue
         n += 1
-        tested = [txt(c.args[1]) if len(c.args) > 1 else txt(kw(c, "parent")) for c in calls]
+        sub = m.functions.get("is_subdtype")
+        second = sub.positional[1] if sub is not None and len(sub.positional) > 1 else "parent"
+        tested = []
+        for c in calls:
+            a = c.args[1] if len(c.args) > 1 else kw(c, second)
+            tested.append(txt(a) if a is not None else "?")
         want = CLASSIFIER_EXCEPTIONS.get(kind)
         ok = all((t == want) if want else (t.lower() == kind) for t in tested) and len(rets) == 1
         ctx.ob("R11", f, f"dtypes.{name} tests subtyping of the `{kind}` class", ok,
